@@ -39,6 +39,8 @@ theorem refine_fromEntropy (W : World) (e : Bytes) (wordLen ℓ : Int) (st : St)
   rw [fromEntropy_lit]
   unfold Gen.Code.fromEntropy fromEntropyLit
   dsimp only
+  -- `lg.list()` is pure: replace the call wherever the source places it
+  simp only [refine_Language_list_fun, bind_pure_fun]
   rw [show lenBytes e = ((e.length : Nat) : Int) from rfl, show (4 : Int) = ((4 : Nat) : Int) from rfl, toUint_div_len _ _ hlen]
   have hcsb : e.length / 4 < 9223372036854775808 := by omega
   generalize e.length / 4 = cs at *
@@ -69,7 +71,7 @@ theorem refine_fromEntropy (W : World) (e : Bytes) (wordLen ℓ : Int) (st : St)
       generalize beNat e <<< cs + beNat checksum / 1 <<< (8 - cs) = entInt
       by_cases hneg : wordLen < 0
       · rw [bind_panic (makeStrs_neg hneg st), if_pos hneg]
-      · rw [bind_ok (makeStrs_nonneg hneg st), if_neg hneg, bind_ok (refine_Language_list W ℓ st)]
+      · rw [bind_ok (makeStrs_nonneg hneg st), if_neg hneg]
         have h2048 : ¬ ((2048 : Nat) = 0 ∧ wordLen.toNat ≠ 0) := by omega
         rw [if_neg h2048]
         have hsub : subI wordLen 1 = ((wordLen.toNat : Nat) : Int) - 1 := by
